@@ -47,6 +47,16 @@ def gen_and_run(tier, seed):
                 names = {str(x): rng.choice(["a", "ab", "b"]) for x in gen.labels(t)}
                 extra.append({"glob": True, "tree": t, "names": names, "pos": [], "path": path, "sep": "/", "ic": False,
                               "relax": relax, "attr": "name"})
+    # within one name: every character other than '*' and '?' stands for itself (bracket expressions,
+    # negations, ranges, escapes, alternations and anchors of other pattern languages are literal text)
+    mnames = ["a", "b", "[ab]", "!a", "a.b", "axb", "A", "a-b", "[!a]", "a|b", "\\a", "a]", "^a", "a$", "(a)", "a+", "aa"]
+    mpats = ["[ab]", "[!a]", "[a-b]", "a.b", "a?b", "a[", "*]", "\\a", "a|b", "(a)", "a+", "^a", "a$", "!a", "[*]", "?", "a*", "[?b]"]
+    t3 = (0, [(1, []), (2, []), (3, [])])
+    for i, pat in enumerate(mpats):
+        for j in range(6 if tier == "quick" else 30):
+            names = {"0": "r", "1": rng.choice(mnames), "2": rng.choice(mnames), "3": pat}
+            extra.append({"glob": True, "tree": t3, "names": names, "pos": [], "path": pat, "sep": "/",
+                          "ic": (i + j) % 2 == 0, "relax": j % 3 != 0, "attr": "name"})
     cases += extra
     obs = core.run_impl_parallel(PROP, cases)
     # cache histories: > _MAXCACHE distinct patterns, two resolvers with different ignorecase
